@@ -15,8 +15,8 @@
    still marked evaluated, c is field-equal to p;  py_safe r = the run ends in offspring or
    only because the tape was exhausted/ill-typed — never in a Python exception. *)
 From Coq Require Import ZArith QArith Bool List Permutation.
-From PV Require Import Base.Num Base.FVal Base.Tape Model.Operators Model.RealOps
-     Proofs.OperatorsProofs Proofs.RealOpsProofs.
+From PV Require Import Base.Num Base.FVal Base.Tape Model.Operators Model.RealOps Model.RealFormulas
+     Proofs.OperatorsProofs Proofs.RealOpsProofs Proofs.RealFormulasProofs.
 Import ListNotations.
 
 (* ------------------------------------------------------------------ clip *)
@@ -270,3 +270,58 @@ Theorem c06_sbx_old_asymmetric :
   /\ map vars (match sbx_old Z unit (FZ 1) ex_types 2%nat [ex_sol 0 (1#5); ex_sol 1 (4#5)] sbx_tape with Ok (cs, _, _) => cs | _ => [] end)
     = [[VReal (FX (Fin (3#10)))]; [VReal (FX (Fin (6#10)))]].
 Proof. exact sbx_old_asymmetric. Qed.
+
+(* ------------------------------------------------------------------ "returns without error" for the scalar formulas
+   (Model/RealFormulas.v: every division and every power base guarded; exact rationals; pw / pw2 are the
+   powers t ** (eta+1), t ** perturbation, of which only [0,1] -> [0,1] is assumed).  Valid inputs:
+   lb < ub, lb <= x <= ub, eta >= 0, draws 0 <= u < 1 as CPython's uniform(0.0, 1.0) produces them. *)
+Open Scope Q_scope.
+
+(* PM: dx > 0, the fraction and 1 - fraction lie in [0,1], the root's base b lies in [0,1] (no complex result) *)
+Theorem c06_pm_base_nonneg : forall (pw : Q -> Q), (forall t, 0 <= t <= 1 -> 0 <= pw t <= 1) ->
+  forall x lb ub u eta, lb < ub -> lb <= x <= ub -> 0 <= u < 1 -> 0 <= eta ->
+  exists g, pm_guards pw x lb ub u eta = Ok g /\
+    0 < pm_dx g /\ 0 <= pm_frac g <= 1 /\ 0 <= pm_arg g <= 1 /\ 0 <= pm_b g <= 1.
+Proof. exact pm_guards_safe. Qed.
+
+(* SBX, one side: beta in (0,1], alpha in [1,2], alpha*rand in [0,2), the root's base >= 0; in the second
+   branch 2 - alpha*rand > 0 — this is where rand < 1 is needed *)
+Theorem c06_sbx_side_safe : forall (pw : Q -> Q), (forall t, 0 <= t <= 1 -> 0 <= pw t <= 1) ->
+  forall num dy rand eta, 0 <= num -> 0 < dy -> 0 <= rand < 1 -> 0 <= eta ->
+  exists g, sbx_side pw num dy rand eta = Ok g /\
+    0 < s_beta g <= 1 /\ 1 <= s_alpha g <= 2 /\ 0 <= s_arand g < 2 /\ 0 <= s_base g /\
+    (s_base g == s_arand g /\ s_arand g <= 1 \/ (s_base g == 1 / (2 - s_arand g) /\ 1 < s_arand g /\ 0 < s_base g)).
+Proof. exact sbx_side_safe. Qed.
+
+(* SBX: for parents inside the bounds no division by zero and no negative root base, on both sides;
+   recombination happens only with y2 - y1 > EPSILON *)
+Theorem c06_sbx_no_division_by_zero : forall (pw : Q -> Q), (forall t, 0 <= t <= 1 -> 0 <= pw t <= 1) ->
+  forall x1 x2 lb ub rand eta, lb <= x1 <= ub -> lb <= x2 <= ub -> 0 <= rand < 1 -> 0 <= eta ->
+  exists o, sbx_guards pw x1 x2 lb ub rand eta = Ok o /\
+    match o with
+    | Some (dy, s1, s2) => EPSILON < dy /\ side_ok s1 /\ side_ok s2
+    | None => True
+    end.
+Proof. exact sbx_guards_safe. Qed.
+
+Theorem c06_num_delta_safe : forall (pw2 : Q -> Q) nfe swarm maxit u,
+  (forall t, 0 <= t <= 1 -> 0 <= pw2 t <= 1) ->
+  0 <= nfe -> 0 < swarm -> 0 < maxit -> 0 <= u < 1 ->
+  exists g, num_guards pw2 nfe swarm maxit u = Ok g /\
+    0 <= n_fraction g <= 1 /\ 0 <= n_base g <= 1 /\ 0 <= n_exp g <= 1.
+Proof. exact num_guards_safe. Qed.
+
+Theorem c06_spx_exponents_safe : forall us i, Forall (fun u => 0 <= u < 1) us ->
+  exists l, spx_exponents i us = Ok l /\ length l = length us /\ Forall (fun e => 0 < e <= 1) l.
+Proof. exact spx_exponents_safe. Qed.
+
+(* what the guards are for *)
+Theorem c06_sbx_unguarded_divides_by_zero :
+  sbx_guards_unguarded pw_id (1#2) (1#2) 0 1 (1#4) 0 = Err EZeroDiv.
+Proof. exact sbx_unguarded_identical_parents_divide_by_zero. Qed.
+
+Theorem c06_sbx_rand_one_divides_by_zero : sbx_side pw_zero (1#4) (1#2) 1 15 = Err EZeroDiv.
+Proof. exact sbx_rand_one_divides_by_zero. Qed.
+
+Theorem c06_sbx_rand_above_one_leaves_the_reals : sbx_side pw_zero (1#4) (1#2) (11#10) 15 = Err EDomain.
+Proof. exact sbx_rand_above_one_leaves_the_reals. Qed.
